@@ -97,9 +97,13 @@ class Builder:
         self.E = E
         es, mdg = E["es"], E["mdg"]
         st = case["state"]
+        #: arrays handed to porepy; they are overwritten before the evaluation (aliasing probe)
+        self.handed = []
         for k in range(NTS):
-            es.set_variable_values(np.array(st["it%d" % k], dtype=float), iterate_index=k)
-            es.set_variable_values(np.array(st["ts%d" % k], dtype=float), time_step_index=k)
+            for key, kw in (("it%d" % k, {"iterate_index": k}), ("ts%d" % k, {"time_step_index": k})):
+                arr = np.array(st[key], dtype=float)
+                es.set_variable_values(arr, **kw)
+                self.handed.append(arr)
         off = 0
         for sd, d in mdg.subdomains(return_data=True):
             n = sd.num_cells
@@ -147,11 +151,11 @@ class Builder:
             a = pp.ad.TimeDependentDenseArray("src", [E["grids"][d] for d in s["doms"]])
             return self.shifted(s, a, False)
         if k == "scalar":
-            return pp.ad.Scalar(s["v"])
+            return pp.ad.Scalar(self.number(s))
         if k == "dense":
-            return pp.ad.DenseArray(np.array(s["v"], dtype=float))
+            return pp.ad.DenseArray(self.array(s))
         if k == "sparse":
-            return pp.ad.SparseArray(sps.csr_matrix(np.array(s["m"], dtype=float)))
+            return pp.ad.SparseArray(self.matrix(s))
         if k == "proj":
             return pp.ad.Projection(domain_indices=np.array(s["dom"], dtype=int),
                                     range_indices=np.array(s["rng"], dtype=int),
@@ -159,11 +163,11 @@ class Builder:
         if k == "projlist":
             return pp.ad.ProjectionList([self.build(p) for p in s["ps"]])
         if k == "num":          # plain python number (raw operand)
-            return s["v"]
+            return self.number(s)
         if k == "arr":          # plain numpy array (raw operand)
-            return np.array(s["v"], dtype=float)
+            return self.array(s)
         if k == "spm":          # plain scipy matrix (raw operand)
-            return sps.csr_matrix(np.array(s["m"], dtype=float))
+            return self.matrix(s)
         if k == "bin":
             return PYOP[s["op"]](self.build(s["a"]), self.build(s["b"]))
         if k == "neg":
@@ -174,6 +178,55 @@ class Builder:
             a, b = self.build(s["a"]), self.build(s["b"])
             return pp.ad.Operator(children=[a, b], operation=Operations(s["op"]))
         raise ValueError(k)
+
+    @staticmethod
+    def number(s):
+        v, ty = s["v"], s.get("ty", "py")
+        if ty == "int" and float(v) == int(v):
+            return int(v)
+        if ty == "np":
+            return np.float64(v)
+        return v
+
+    def array(self, s):
+        dt = s.get("dtype", "float64")
+        vals = s["v"]
+        if dt.startswith("int") and not all(float(x) == int(x) for x in vals):
+            dt = "float32"      # quarter values are exact in binary32 as well
+        a = np.array(vals, dtype=dt)
+        self.handed.append(a)
+        return a
+
+    def matrix(self, s):
+        """scipy matrix in the requested storage format; csr/csc optionally with unsorted
+        indices and explicitly stored zeros"""
+        dense = np.array(s["m"], dtype=float)
+        fmt = s.get("fmt", "csr_matrix")
+        layout = s.get("layout")
+        if layout and fmt[:3] in ("csr", "csc"):
+            major = dense if fmt[:3] == "csr" else dense.T
+            data, ind, ptr = [], [], [0]
+            for r, row in enumerate(major):
+                cols = [c for c in range(len(row)) if row[c] != 0
+                        or (layout == "zeros" and (r + c) % 2 == 0)]
+                if layout == "unsorted":
+                    cols = cols[::-1]
+                data += [row[c] for c in cols]
+                ind += cols
+                ptr.append(len(data))
+            m = getattr(sps, fmt)((np.array(data, dtype=float), np.array(ind, dtype=int),
+                                   np.array(ptr, dtype=int)), shape=dense.shape)
+        else:
+            m = getattr(sps, fmt)(dense)
+        return m
+
+    def clobber(self):
+        """overwrite every array that was handed to porepy (those it made read-only refuse)"""
+        for a in self.handed:
+            try:
+                a[...] = 977
+            except ValueError:
+                pass
 
     def sub_order(self, s):
         """(name, domain) of the sub-variables of the real (unshifted) variable of a var spec"""
@@ -476,8 +529,26 @@ def rvals(rng, n, positive=False):
     return [abs(x) for x in out] if positive else out
 
 
+SPFMT = ["csr_matrix", "csr_matrix", "csc_matrix", "coo_matrix", "csr_array", "csc_array",
+         "coo_array", "dia_matrix", "bsr_matrix"]
+
+
 def gen_num(rng):
     return rng.choice([2, 0.5, -1, 3, 1.5, -2, 0.25])
+
+
+def decorate(rng, s):
+    """storage type of numbers and arrays handed to porepy (values unchanged)"""
+    if s["k"] in ("num", "scalar"):
+        s["ty"] = rng.choice(["py", "py", "int", "np"])
+    elif s["k"] in ("dense", "arr"):
+        s["dtype"] = rng.choice(["float64", "float64", "float32", "int64", "int32"])
+        if s["dtype"].startswith("int"):
+            s["v"] = [x * 4 for x in s["v"]]      # quarter values -> non-zero integers
+    for f in ("a", "b"):
+        if isinstance(s.get(f), dict):
+            decorate(rng, s[f])
+    return s
 
 
 def gen_shift(rng, s, mode, budget, is_var):
@@ -529,7 +600,11 @@ def gen_leaf_vec(rng, n, allow_raw, mode="any", budget=4):
 def gen_mat(rng, rows, cols, raw_ok):
     m = [[float(rng.choice(VALS)) if rng.random() < 0.5 else 0.0 for _ in range(cols)]
          for _ in range(rows)]
-    return {"k": "spm" if (raw_ok and rng.random() < 0.3) else "sparse", "m": m}
+    s = {"k": "spm" if (raw_ok and rng.random() < 0.3) else "sparse", "m": m,
+         "fmt": rng.choice(SPFMT)}
+    if s["fmt"][:3] in ("csr", "csc") and rng.random() < 0.4:
+        s["layout"] = rng.choice(["unsorted", "zeros"])
+    return s
 
 
 def gen_proj(rng, n_from, n_to):
@@ -712,10 +787,11 @@ class C02(Prop):
         "previous_iteration of whole trees (transcription of _get_previous_time_or_iterate) compose "
         "additively, also over leaves that are shifted already (C02_shift_composes), and a time shift "
         "by s makes every previous-time leaf read exactly s stored steps further back "
-        "(C02_shift_time_semantics). PARTIAL: full totality "
-        "(no ValueError on well-kinded, shape-consistent trees) and 'value without derivative = "
-        "value with derivative' are not theorems; they are checked per generated case by the "
-        "correspondence and by the oracle. The model is tied to the code on every run: expressions "
+        "(C02_shift_time_semantics); the evaluation without derivative of any such tree yields "
+        "exactly the result with derivative stripped of its Jacobian, although the parser then "
+        "flips operands at other nodes (C02_value_agrees). PARTIAL: full totality (no ValueError on "
+        "well-kinded, shape-consistent trees) is not a theorem; it is checked per generated case by "
+        "the correspondence and by the oracle. The model is tied to the code on every run: expressions "
         "are built with the real classes through the real overloads, the real Operator tree is "
         "serialised, EquationSystem.evaluate is run with and without derivative, and Coq recomputes "
         "the model on the same tree/state and compares value and dense Jacobian (and checks "
@@ -749,7 +825,13 @@ class C02(Prop):
             "and per index; previous_timestep / previous_iteration applied to composite expressions "
             "that already contain shifted leaves (nested twice, mixed with time-dependent arrays), "
             "each such call checked against the model's shift_tree on the serialised operators; "
-            "KeyError beyond the stored indices and refused time/iterate mixes; evaluated by "
+            "KeyError beyond the stored indices and refused time/iterate mixes; bare shifted leaves; "
+            "sparse operands in csr/csc/coo/dia/bsr storage, matrix and array flavours, csr/csc also "
+            "with unsorted indices and explicitly stored zeros; dense operands as float64/float32/"
+            "int64/int32, numbers as python float/int and numpy float64; exact power-of-two scalings "
+            "2^-10..2^10 of all stored values (shallow streams); aliasing probes: every array handed "
+            "to porepy is overwritten before the evaluation, every array an evaluation returned is "
+            "overwritten before the evaluation is repeated; evaluated by "
             "EquationSystem.evaluate with and without derivative; non-trivial = at least one operation")
     trusted = ["the serialiser of the real Operator tree (operation, children, leaf data: dofs of a "
                "variable = dofs_of of its sub-variables in their order, private time/iterate indices)",
@@ -762,13 +844,26 @@ class C02(Prop):
     assumptions = ["operands are shape-consistent (numpy broadcasting of length-1 arrays and shape "
                    "errors are outside the model)", "no division by zero / non-finite values",
                    "exponents are integers given as numbers (array or AdArray exponents need "
-                   "logarithms: outside the rational fragment)"]
+                   "logarithms: outside the rational fragment)",
+                   "numpy scalar types other than float64 (np.int64, np.float32) as plain operands are "
+                   "rejected by Operator._parse_other ('Cannot parse ... as an AD operator'); not "
+                   "generated"]
 
     _stats = {"kinds": {}, "census": {}, "direct_adarray_checked": 0, "results": {}, "envs": {},
               "shift_calls_on_composites": 0, "permuted_md_leaves": 0}
 
     # ---------------------------------------------------------------------------------
     def generate(self, rng, n, tier):
+        for case in self._generate(rng, n, tier):
+            decorate(rng, case["expr"])
+            if case["kind"] in ("md-order", "shift-of-composite") and rng.random() < 0.5:
+                # exact power-of-two scaling of every stored value, tiny to huge
+                k = rng.randint(-10, 10)
+                case["state"] = {key: [x * 2.0 ** k for x in v] for key, v in case["state"].items()}
+                case["scale_exp"] = k
+            yield case
+
+    def _generate(self, rng, n, tier):
         depth = 3 if tier == "quick" else 4
         N = env(0)["N"]
         for c in range(n):
@@ -855,6 +950,12 @@ class C02(Prop):
                                                    "b": dict(X, **{k2: 1})}}
                 yield dict(base, kind="shift-conflict", expr=expr)
                 continue
+            if r < 0.42:
+                # a bare (shifted) leaf: the result is what the leaf's parse returns
+                size = rng.choice([2, 4, 6])
+                leaf = gen_var(rng, size) if rng.random() < 0.7 else gen_tdda(rng, size)
+                yield dict(base, kind="bare-leaf", expr=leaf)
+                continue
             size = rng.choice([2, 4, 6, 6])
             expr = fix_raw(gen_vec(rng, size, rng.randint(1, depth)))
             if is_raw(expr) or expr["k"] not in ("bin", "neg", "prev"):
@@ -906,9 +1007,26 @@ class C02(Prop):
         if not isinstance(op, pp.ad.Operator):
             # the python expression did not even produce an Operator (numpy broadcast over it)
             return {"built": False, "refused": False, "type": type(op).__name__}
+        b.clobber()     # aliasing probe: porepy must not see later writes to arrays handed in
         tree = ser(op, E)
         with_d = self.observe(E["es"], op, True)
         without_d = self.observe(E["es"], op, False)
+        # aliasing probe on results: overwrite what an evaluation returned, evaluate again
+        aliasing = False
+        for deriv, first in ((True, with_d), (False, without_d)):
+            try:
+                r = E["es"].evaluate(op, derivative=deriv)
+                if isinstance(r, pp.ad.AdArray):
+                    r.val[...] = 977
+                    r.jac.data[...] = 977
+                elif isinstance(r, np.ndarray):
+                    r[...] = 977
+                elif isinstance(r, (sps.spmatrix, sps.sparray)):
+                    r.data[...] = 977
+            except (ValueError, KeyError, NotImplementedError, ZeroDivisionError):
+                pass
+            if self.observe(E["es"], op, deriv) != first:
+                aliasing = True
         # direct evaluation on real AdArrays
         state = np.array(case["state"]["it0"], dtype=float)
         direct = None
@@ -924,7 +1042,7 @@ class C02(Prop):
         st["envs"][case.get("env", 0)] = st["envs"].get(case.get("env", 0), 0) + 1
         st["shift_calls_on_composites"] += len(b.shifts)
         return {"built": True, "tree": jsonable(tree), "with_d": with_d, "without_d": without_d,
-                "direct": direct, "shifts": jsonable(b.shifts)}
+                "direct": direct, "shifts": jsonable(b.shifts), "aliasing": aliasing}
 
     @staticmethod
     def _tree_of(case, res):
@@ -940,6 +1058,9 @@ class C02(Prop):
                         "whose shifts are all of one kind")
             return ("the expression with a numpy array as left operand did not build an Operator "
                     f"(got {res['type']})")
+        if res.get("aliasing"):
+            return ("a later evaluation of the same operator differs after the arrays returned by "
+                    "an earlier evaluation were overwritten (aliasing)")
         E = env(case.get("env", 0))
         N = E["N"]
         b = Builder(case)
